@@ -13,7 +13,8 @@ LEVEL = "exploration"
 SHARDS = {"quick": 1, "thorough": 16}
 RULE = (
     "case = (signature, call shape, requested-name variant, mode in {all-hold, pre-violated, post-violated}, flavour in "
-    "{def, async def, method called on an instance (self requestable, _ARGS starts with the instance)}); "
+    "{def, async def, method called on an instance (self requestable, _ARGS starts with the instance)}, re-entry in "
+    "{no, the body calls the same callable again with other argument objects before returning}); "
     "signatures: 0..2 positional-only x 0..3 positional-or-keyword x *args? x 0..2 keyword-only x **kwargs? x every "
     "legal default placement; shapes: every bindable count of positionals (surplus 0..2 with *args), every "
     "keyword/omitted choice, surplus keywords z1,z2 and names equal to positional-only parameters with **kwargs. "
@@ -47,6 +48,9 @@ class Rig:
         self.dreq = dreq or {}
         self.cbdef = Obj("CALLBACK-DEFAULT")
         self.log = []
+        self.inner_log = []
+        self.depth = 0
+        self.reenter = None
         self.mode = "A"
         self.result = Obj("RESULT")
         self.cap_token = Obj("CAP")
@@ -96,10 +100,24 @@ class Rig:
         return ret
 
     def _body(self, loc):
+        if self.depth:
+            self.inner_log.append(("body", dict(loc)))
+            return Obj("INNER-RESULT")
         self.log.append(("body", dict(loc)))
+        if self.reenter is not None:
+            # the body calls the same decorated callable again with other argument objects (recursion)
+            self.depth = 1
+            try:
+                self.call(self.func, *self.reenter)
+            finally:
+                self.depth = 0
         return self.result
 
     def _cb(self, role, loc):
+        if self.depth:
+            # callbacks of the nested call: all hold
+            self.inner_log.append((role, dict(loc)))
+            return self.cap_token if role == "cap" else True
         self.log.append((role, dict(loc)))
         if role == "pre":
             return self.mode != "B"
@@ -233,16 +251,23 @@ def run_case(ctx, case):
 
     # ---- real run ---------------------------------------------------------------
     rig.log = []
+    rig.inner_log = []
     rig.mode = mode
     rig.err_obj = None
     got_exc = None
     got_ret = None
+    rig.reenter = sigmodel.make_call(sig, shape) if case.get("reenter") else None
     try:
         got_ret = rig.call(rig.func, args, kwargs)
     except core.HarnessError:
         raise
     except BaseException as e:  # noqa
         got_exc = e
+    finally:
+        rig.reenter = None
+        rig.depth = 0
+    if case.get("reenter") and "body" in [r for r, _ in rig.log] and "body" not in [r for r, _ in rig.inner_log]:
+        ctx.count("nested_call_did_not_reach_its_body")
 
     def fail(clause, detail, pname=None):
         sit = []
@@ -258,9 +283,11 @@ def run_case(ctx, case):
         bucket = "%s|%s" % (clause, ",".join(sit))
         c = dict(case)
         c["mismatch_param"] = pname
-        ctx.fail(bucket, c, "%s\nflavour " + case.get("flavour", "func") + "\nsignature: def f(%s)\ncall: %d positionals, keywords %s\nrequested: %s\nmode %s" % (
-            detail, sigmodel.render_params(sig, lambda n: "<dflt>"), shape["npos"],
-            sorted(kwargs), req, mode))
+        if case.get("reenter"):
+            bucket += "|body-re-enters"
+        how = case.get("flavour", "func") + (", the body calls the callable again" if case.get("reenter") else "")
+        ctx.fail(bucket, c, "%s\nflavour %s\nsignature: def f(%s)\ncall: %d positionals, keywords %s\nrequested: %s\nmode %s" % (
+            detail, how, sigmodel.render_params(sig, lambda n: "<dflt>"), shape["npos"], sorted(kwargs), req, mode))
 
     # sanity: body's locals agree with bind (harness self-check)
     for role, loc in rig.log:
@@ -338,6 +365,8 @@ def do_case(ctx, case):
         ctx.count("shape:" + f)
     ctx.count("mode:" + case["mode"])
     ctx.count("flavour:" + case.get("flavour", "func"))
+    if case.get("reenter"):
+        ctx.count("body re-enters the callable with other arguments")
     ctx.case(case, bool(NONTRIV & set(feats)), sample=lambda: sample_of(case))
 
 
@@ -367,8 +396,9 @@ KNOWN = {
 def replay(ctx, case):
     c = {k: case[k] for k in ("sig", "shape", "req", "mode")}
     c["dreq"] = case.get("dreq")
-    if "flavour" in case:
-        c["flavour"] = case["flavour"]
+    for k in ("flavour", "reenter"):
+        if k in case:
+            c[k] = case[k]
     run_case(ctx, c)
     ctx.evaluations += 1
 
@@ -397,6 +427,12 @@ def run(ctx, tier, seed, shard, nshards):
                     for mode in modes:
                         do_case(ctx, {"sig": sig, "shape": shape, "req": req, "dreq": None, "mode": mode,
                                       "flavour": flavour})
+                # the body calls the callable again with other argument objects: the outer call's postcondition,
+                # capture and error factory still get the outer call's values
+                for flavour in ("func", "method"):
+                    for mode in ("A", "C"):
+                        do_case(ctx, {"sig": sig, "shape": shape, "req": req_variants(sig, flavour)[0], "dreq": None,
+                                      "mode": mode, "flavour": flavour, "reenter": True})
                 # one nobody-supplies-it name in each callback in turn
                 for role in MISSING_VARIANTS:
                     req = {r: list(v) for r, v in variants[1].items()}
@@ -432,7 +468,7 @@ def run(ctx, tier, seed, shard, nshards):
         if draw(st.booleans()):
             dreq = {r: [n for n in v if n not in ("result", "OLD") and draw(st.booleans())] for r, v in req.items()}
         return {"sig": sig, "shape": shape, "req": req, "dreq": dreq, "mode": draw(st.sampled_from(modes)),
-                "flavour": flavour}
+                "flavour": flavour, "reenter": draw(st.integers(0, 3)) == 0}
 
     @given(st_case())
     def test(case):
